@@ -308,8 +308,18 @@ func c06History(r *ev.Run, id string, rng *rand.Rand, nOps int) {
 			clock = rxIn + 1 + rng.Int64N(2000)
 		}
 		req := ntp.Packet{}
-		req.SetVersion(4)
-		req.SetMode(ntp.ModeClient)
+		// requests of every version a listener lets through (v1 carries mode 0): the reply is version 4 whatever the request says
+		switch v := []uint8{4, 4, 4, 3, 2, 1}[rng.IntN(6)]; v {
+		case 1:
+			req.SetVersion(1)
+			req.SetMode(0)
+		default:
+			req.SetVersion(v)
+			req.SetMode(ntp.ModeClient)
+		}
+		if rng.IntN(8) == 0 {
+			req.SetLeapIndicator(ntp.LeapIndicatorUnknown)
+		}
 		cTX := ntp.Time64FromTime(time.Unix(0, base-1e6+int64(step)*1000+rng.Int64N(900)))
 		shape := rng.IntN(10)
 		mine := replies[c]
